@@ -2,7 +2,7 @@
    Spec/Session.v is the abstract session: an ideal line over characters (C05), an abstract history (C10), the completion spec (C11),
    the declarative tokeniser (C07). With a working sink the concrete Cli, driven byte by byte through the decoder, refines it. *)
 From EC Require Import Base Generated.Codes Model.Utf8 Model.Input Model.Editor Model.Args Model.History Model.Sink Model.Writer Model.Cli
-  Spec.QuoteSpec Spec.IdealEditor Spec.HistSpec Spec.Session Proofs.ArgsProofs Proofs.SinkOk Proofs.SafetyProofs Proofs.SessionProofs.
+  Spec.QuoteSpec Spec.IdealEditor Spec.HistSpec Spec.Session Proofs.ArgsProofs Proofs.SinkOk Proofs.SafetyProofs Proofs.SessionProofs Proofs.TerminalProofs Proofs.ViewProofs.
 
 (* what the abstract session says about dispatch *)
 (* no key other than Enter ever calls the handler *)
@@ -71,6 +71,16 @@ Theorem C01_event : forall feats cs handler, cmdset_ok cs -> forall cap hcap c s
   hcalls s' = hcalls s ++ snd (astep feats cs handler cap hcap a (Ctl c)).
 Proof. intros feats cs handler Hcs cap hcap c s a r s' HS E. destruct (on_control_refines feats cs handler Hcs cap hcap c s a r s' HS E) as (e1 & e2 & e3 & _). auto. Qed.
 Print Assumptions C01_event.
+
+(* every Enter, whatever the line (empty, help request, rejected by the typed parser, dispatched): the bytes written are CR LF, then output
+   X that is empty or ends with a line break, then exactly one prompt - the one in force after the call - at the very end
+   (printable environment text: env_ok; Proofs/ViewProofs.v). With C13's Enter frame this is the "one fresh prompt" clause. *)
+Theorem C01_prompt : forall feats cs handler, ViewProofs.env_ok cs handler -> forall cap hcap s a, SRel cap hcap s a ->
+  Forall TerminalProofs.pchar (IdealEditor.chars (aline a)) ->
+  exists s' X, on_enter okT feats cs handler s = (Ok tt, s') /\
+    ViewProofs.obytes s' = ViewProofs.obytes s ++ [13; 10] ++ X ++ prompt s' /\ ViewProofs.EndsOK X.
+Proof. exact ViewProofs.on_enter_out. Qed.
+Print Assumptions C01_prompt.
 
 Example C01_nonvacuous :
   let feats := {| f_hist := true; f_ac := true; f_help := true |} in
